@@ -365,3 +365,69 @@ func ruleSameTag(c *Ctx) {
 	}
 	c.Floor("X.wt.sametag", 2)
 }
+
+// ruleMarshalOmit: X.marshal.omit - Marshal writes a value exactly when the
+// codec's Omit says it is not to be omitted, whatever way the value was handed
+// in: every call of the codec's Append in (*Plenc).Marshal is dominated by the
+// branch on which the codec's own Omit returned false. A second condition
+// that lets some arguments (pointers, say) bypass the test makes
+// Marshal(buf, &v) and Marshal(buf, v) disagree for zero values (C06-r15-m2).
+func ruleMarshalOmit(c *Ctx) {
+	f := c.P.ssaFunc("plenc.Plenc.Marshal")
+	if f == nil {
+		c.Oblige("X.marshal.omit", false, token.NoPos, "plenc.Plenc.Marshal", "function", "not found", nil)
+		return
+	}
+	name := ssaFuncName(f)
+	var omits []*ssa.Call
+	var appends []*ssa.Call
+	for _, b := range f.Blocks {
+		for _, in := range b.Instrs {
+			if call, ok := in.(*ssa.Call); ok && call.Common().IsInvoke() {
+				switch call.Common().Method.Name() {
+				case "Omit":
+					omits = append(omits, call)
+				case "Append":
+					appends = append(appends, call)
+				}
+			}
+		}
+	}
+	for _, ap := range appends {
+		ok := false
+		for _, om := range omits {
+			if om.Common().Value != ap.Common().Value {
+				continue // another codec's Omit
+			}
+			for _, d := range f.Blocks {
+				iff, isIf := d.Instrs[len(d.Instrs)-1].(*ssa.If)
+				if !isIf {
+					continue
+				}
+				cond := iff.Cond
+				neg := false
+				for {
+					u, isU := cond.(*ssa.UnOp)
+					if !isU || u.Op != token.NOT {
+						break
+					}
+					cond = u.X
+					neg = !neg
+				}
+				if cond != ssa.Value(om) {
+					continue
+				}
+				idx := 1 // Omit false: the else edge
+				if neg {
+					idx = 0
+				}
+				if dominatedByBranch(d, idx, ap.Block()) {
+					ok = true
+				}
+			}
+		}
+		c.Oblige("X.marshal.omit", ok, ap.Pos(), name, "Append only where the codec's Omit returned false",
+			"Marshal writes a value exactly when its codec does not omit it, for every way of handing the value in: this Append must be dominated by the false outcome of the same codec's Omit", nil)
+	}
+	c.Floor("X.marshal.omit", 1)
+}
